@@ -2,6 +2,7 @@
 # Apply each seeded change to /repo, run the property's quick check, undo the change.
 # usage: tools/run_seeds.sh [seed-dir-name ...]     (default: all under /verif/seeded)
 # Output: one line per seed in /verif/.build/logs/seeds.status, full logs next to it.
+# VERIF_ONLY=<substring,..> restricts the obligations run (development aid).
 # Evidence files written during these runs are restored afterwards (they describe a mutated tree).
 cd /verif || exit 2
 mkdir -p .build/logs .build/evidence_keep
